@@ -86,4 +86,9 @@ example : (Prog.callOut { name := "g", alias := "g", prepare := none, failOnMiss
       ⟨fun a => a == opAlias, by simp⟩ := by
   refine ⟨by decide, trivial, fun _ => trivial⟩
 
+/-- The duration is always part of what the recorder saves (`play()` reads it back unconditionally; only a recording that
+was not made by the recorder can lack it). -/
+theorem C18_duration_recorded (ao : AliasOracle) (cfg : OpCfg) (data : Data) (excFlag : Option Bool) (d : Int) :
+    (postMeta ao cfg data excFlag d).hasDuration = true ∧ (postMeta ao cfg data excFlag d).duration = d := ⟨rfl, rfl⟩
+
 end Properties.C18
